@@ -64,9 +64,10 @@ def static_table(chk, ed, tier, rng):
             lat = [[tk.new("tL_%d_%d" % (i, a)) for a in range(3)] for i in range(nv)]
             for i in range(nv):
                 lines.append("   ".join(lat[i]))
-        with tempfile.NamedTemporaryFile("w", suffix=".dat", delete=False) as fp:
+        # one path for all shapes: a reader answering from an earlier parse of the same path fails the next shape
+        fn = os.path.join(tempfile.gettempdir(), "c17_static_%d.dat" % os.getpid())
+        with open(fn, "w") as fp:
             fp.write("\n".join(lines) + "\n")
-            fn = fp.name
         t0 = time.time()
         try:
             with patched((ed, {"float": tk.float})):
@@ -165,14 +166,19 @@ def build_phonon(tk, md, nv, nq, np_, symbolic=True, rng=None):
 
 def phonon_roundtrip(chk, qi, md, tier, rng):
     shapes = [(2, 2, 3), (3, 1, 6), (2, 1, 9)] if tier == "quick" else [(1, 1, 3), (2, 2, 3), (3, 1, 6), (4, 3, 6), (2, 4, 9)]
-    for nv, nq, np_ in shapes:
-        name = "write_energy -> read_energy[nv=%d, nq=%d, np=%d]" % (nv, nq, np_)
+    # history: all data sets are written to and read from ONE path in turn (and the first shape once more at the end), so that a read
+    # which answers from an earlier parse of the same path instead of the file's current content is a failed obligation
+    shapes = shapes + [shapes[0]]
+    with tempfile.NamedTemporaryFile("w", suffix=".txt", delete=False) as fp:
+        shared = fp.name
+    os.unlink(shared)
+    for step, (nv, nq, np_) in enumerate(shapes):
+        name = "write_energy -> read_energy[nv=%d, nq=%d, np=%d; step %d at the same path]" % (nv, nq, np_, step)
         ctx = new_context()
         ctx.format_tokens = True
         tk = Tokens(ctx)
         data = build_phonon(tk, md, nv, nq, np_)
-        with tempfile.NamedTemporaryFile("w", suffix=".txt", delete=False) as fp:
-            fn = fp.name
+        fn = shared
         t0 = time.time()
         try:
             with patched((qi, {"float": tk.float})):
@@ -181,9 +187,6 @@ def phonon_roundtrip(chk, qi, md, tier, rng):
             chk.obligation(name, "sat", kind="round-trip", detail="raises %s: %s" % (type(e).__name__, e))
             replay_phonon(chk, qi, md, nv, nq, np_, rng, "raises %s: %s" % (type(e).__name__, e))
             continue
-        finally:
-            if os.path.exists(fn):
-                os.unlink(fn)
         fails = []
         if (back.nv, back.nq, back.np, back.nm, back.na) != (data.nv, data.nq, data.np, data.nm, data.na):
             fails.append("counts %s" % ((back.nv, back.nq, back.np, back.nm, back.na),))
@@ -208,14 +211,19 @@ def phonon_roundtrip(chk, qi, md, tier, rng):
                        "unsat" if not fails else "sat", seconds=round(time.time() - t0, 3), kind="round-trip", detail=fails[:3])
         if fails:
             replay_phonon(chk, qi, md, nv, nq, np_, rng, fails[0])
+    if os.path.exists(shared):
+        os.unlink(shared)
 
 
 def replay_phonon(chk, qi, md, nv, nq, np_, rng, what):
+    """Concrete replay; the data set is written and read at a path that held another data set (already read once) before."""
     tk = Tokens(S.current())
     data = build_phonon(tk, md, nv, nq, np_, symbolic=False, rng=rng)
     with tempfile.NamedTemporaryFile("w", suffix=".txt", delete=False) as fp:
         fn = fp.name
     try:
+        qi.write_energy(fn, build_phonon(tk, md, nv + 1, nq, np_, symbolic=False, rng=rng))
+        qi.read_energy(fn)
         qi.write_energy(fn, data)
         back = qi.read_energy(fn)
     except Exception as e:
